@@ -4,6 +4,7 @@ package main
 
 import (
 	"bufio"
+	"os"
 	"fmt"
 	"io"
 	"os/exec"
@@ -82,6 +83,20 @@ func (c *Ctx) BuildQuery(asserts []*Term) *Query {
 		visit(a)
 	}
 	q := &Query{Nodes: len(order), Decl: map[string]bool{}}
+	if os.Getenv("VX_DEBUG_OPS") != "" && len(order) > 20000 {
+		h := map[string]int{}
+		for _, t := range order {
+			n := opNames[t.Op]
+			if n == "" {
+				n = fmt.Sprintf("op%d", t.Op)
+			}
+			if t.Op == OIte {
+				n += ":" + t.Sort.String()
+			}
+			h[n]++
+		}
+		fmt.Fprintf(os.Stderr, "OPS(%d): %v\n", len(order), h)
+	}
 	name := func(t *Term) string {
 		switch t.Op {
 		case OConst:
